@@ -149,6 +149,55 @@ fn function_level(seed: u64, interior: u64, cases: u64) -> Acc {
                 _ => acc.count("estimates_both_err"),
             }
         }
+        // (e) transfer-fee conversions used by every quote over Token-2022 fee mints: the SDK's apply / reverse-apply
+        //     against the program's own calculate_transfer_fee_excluded / included_amount on a real mint account,
+        //     all fee rates and caps, amounts up to u64::MAX (incl. the region where amount + fee crosses 2^64)
+        for _ in 0..cases / 160 {
+            let any_bps: u16 = r.gen_range(0..=10000);
+            let bps = *rnd::pick(&mut r, &[0u16, 1, 30, 100, 999, 5000, 9900, 9999, 10000, any_bps]);
+            let maxf = match r.gen_range(0..5) {
+                0 => 0u64,
+                1 => u64::MAX,
+                2 => r.gen_range(0..10_000),
+                _ => rnd::log_u64(&mut r),
+            };
+            let mut xs: Vec<u64> = (0..12).map(|_| rnd::hostile_u64(&mut r)).collect();
+            // amounts whose fee-included value sits around 2^64
+            let top = ((u64::MAX as u128) * (10000 - bps.min(9999)) as u128 / 10000) as u64;
+            xs.extend([top, top.saturating_sub(r.gen_range(0..1000)), top.saturating_add(r.gen_range(0..1000)), u64::MAX - maxf.min(u64::MAX / 2), u64::MAX - r.gen_range(0..1u64 << 40)]);
+            let prog = vcheck::checks::c16::anchor_fee_amounts(&mut r, (bps, maxf), &xs);
+            let tf = sdk::TransferFee { fee_bps: bps, max_fee: maxf };
+            for (x, (pe, pi)) in xs.iter().zip(prog) {
+                acc.evaluations += 1;
+                let case = json!({"fee_bps": bps, "max_fee": maxf, "amount": x});
+                let se = quiet_catch(|| sdk::try_apply_transfer_fee(*x, tf)).unwrap_or(Err("panic"));
+                let si = quiet_catch(|| sdk::try_reverse_apply_transfer_fee(*x, tf)).unwrap_or(Err("panic"));
+                match (pe, se) {
+                    (Ok((amt, _)), Ok(s)) => {
+                        acc.count("fee_apply_both_ok");
+                        if amt != s {
+                            acc.violation("sdk:transfer_fee:apply_value", format!("amount after fee: program {amt}, sdk {s}"), case.clone());
+                        }
+                    }
+                    (Ok((amt, _)), Err(e)) => acc.violation("sdk:transfer_fee:apply_sdk_fails_where_program_succeeds", format!("program {amt}, sdk error {e}"), case.clone()),
+                    _ => acc.count("fee_apply_program_err"),
+                }
+                match (pi, si) {
+                    (Ok((amt, _)), Ok(s)) => {
+                        acc.count("fee_reverse_both_ok");
+                        if amt != s {
+                            acc.violation("sdk:transfer_fee:reverse_value", format!("amount before fee: program {amt}, sdk {s}"), case.clone());
+                        }
+                        if amt > (1u64 << 63) {
+                            acc.count("fee_reverse_both_ok_above_2_63");
+                        }
+                    }
+                    (Ok((amt, _)), Err(e)) => acc.violation("sdk:transfer_fee:reverse_sdk_fails_where_program_succeeds", format!("program {amt}, sdk error {e}"), case.clone()),
+                    (Err(_), Ok(_)) => acc.count("fee_reverse_sdk_number_on_program_error"),
+                    _ => acc.count("fee_reverse_both_err"),
+                }
+            }
+        }
         acc
     })
 }
@@ -433,7 +482,7 @@ fn main() {
     }
     vcheck::report::capture_stdout();
     let mut rep = Report::new("C20", tier, seed);
-    rep.rule = "the Rust core SDK (rust-sdk/core) linked next to the program: (a) tick_index_to_sqrt_price on ALL 887273 ticks and sqrt_price_to_tick_index at every boundary +-1 and on a random interior sample equal the program's; (b) try_get_amount_delta_a/b, try_get_next_sqrt_price_from_a/b and try_get_token_estimates_from_liquidity on hostile inputs: equal values where the program returns Ok, an SDK error wherever the program rejects as overflowing, no SDK error where the program succeeds; (c) every swap_v2 of history workloads (static, adaptive, transfer-fee pools) is re-judged with no price limit on a clone of the pre-state and compared with swap_quote_by_input/output_token built from the decoded pre-state (pool, tick arrays of both encodings incl. merely named ones as zeroed arrays, oracle, epoch transfer fees): amounts in/out and total fee equal when the program succeeds, no SDK failure there, an SDK number on a program refusal only for partial exact-out fills / running off the arrays, slippage bound on the safe side; (d) every successful increase/decrease_liquidity(_v2) of the same histories is compared with increase_liquidity_quote / decrease_liquidity_quote for its liquidity amount: the estimates equal what the owner paid / received (transfer fees included), the SDK does not fail, maxima/minima on the safe side. distinct = (function, magnitude) and (mode, direction, outcome, adaptive, transfer fee)".into();
+    rep.rule = "the Rust core SDK (rust-sdk/core) linked next to the program: (a) tick_index_to_sqrt_price on ALL 887273 ticks and sqrt_price_to_tick_index at every boundary +-1 and on a random interior sample equal the program's; (b) try_get_amount_delta_a/b, try_get_next_sqrt_price_from_a/b and try_get_token_estimates_from_liquidity on hostile inputs: equal values where the program returns Ok, an SDK error wherever the program rejects as overflowing, no SDK error where the program succeeds; (e) try_apply_transfer_fee / try_reverse_apply_transfer_fee against the program's calculate_transfer_fee_excluded / included_amount on a real Token-2022 mint account, all rates and caps, amounts up to u64::MAX incl. where amount + fee crosses 2^64: equal values and no SDK failure where the program succeeds; (c) every swap_v2 of history workloads (static, adaptive, transfer-fee pools) is re-judged with no price limit on a clone of the pre-state and compared with swap_quote_by_input/output_token built from the decoded pre-state (pool, tick arrays of both encodings incl. merely named ones as zeroed arrays, oracle, epoch transfer fees): amounts in/out and total fee equal when the program succeeds, no SDK failure there, an SDK number on a program refusal only for partial exact-out fills / running off the arrays, slippage bound on the safe side; (d) every successful increase/decrease_liquidity(_v2) of the same histories is compared with increase_liquidity_quote / decrease_liquidity_quote for its liquidity amount: the estimates equal what the owner paid / received (transfer fees included), the SDK does not fail, maxima/minima on the safe side. distinct = (function, magnitude) and (mode, direction, outcome, adaptive, transfer fee)".into();
     rep.assumptions = vec![
         "`ethnum` is not available offline: the SDK is compiled against /verif/vendor/ethnum-shim, a U256 over `uint` 0.9.5 with the std-integer semantics ethnum documents (checked_shl fails only for shifts >= 256)".into(),
         "only the Rust core is exercised; its TypeScript/WASM packaging cannot be built offline".into(),
@@ -449,6 +498,8 @@ fn main() {
     acc.merge(acc2);
     rep.acc = acc;
     rep.floor("ticks_compared", 887_273);
+    rep.floor("fee_reverse_both_ok", 50_000);
+    rep.floor("fee_reverse_both_ok_above_2_63", 2_000);
     rep.floor("liquidity_quotes_compared", 2_000);
     rep.floor("liquidity_quotes_transfer_fee", 200);
     rep.floor("delta_both_ok", 300_000);
